@@ -7,6 +7,7 @@ import (
 	"strings"
 
 	"verif/internal/prng"
+	"verif/internal/ref"
 )
 
 // Families of input data.
@@ -45,6 +46,21 @@ func Data(r *prng.R, family string, n int) []byte {
 		r.Bytes(b[6<<20:])
 		copy(b[6<<20+o:], m)
 		return b
+	}
+	if strings.HasPrefix(family, "carry:") {
+		// "carry:<lc><lp><pb>:<lead>:<runlen>:<c|n>:<alphabet>": content built against the
+		// arithmetic of the range coder (see ref.GenCarryData): as a sequence of literals under
+		// the given properties it drives the coder into runs of runlen held-back bytes that
+		// end with (c) or without (n) a carry.  n is ignored.
+		f := strings.Split(family, ":")
+		if len(f) == 6 && len(f[1]) == 3 {
+			lead, _ := strconv.Atoi(f[2])
+			runLen, _ := strconv.Atoi(f[3])
+			alpha, _ := strconv.Atoi(f[5])
+			p := ref.Props{LC: int(f[1][0] - '0'), LP: int(f[1][1] - '0'), PB: int(f[1][2] - '0')}
+			d, _ := ref.GenCarryDataAlpha(r, p, lead, 2, runLen, 20+runLen/2, f[4] == "c", alpha)
+			return d
+		}
 	}
 	if strings.HasPrefix(family, "thinrep:") {
 		// noise with k eight-byte repeats (1000 bytes back) spread evenly: data whose LZMA
